@@ -481,7 +481,7 @@ func (e *Engine) canon(fc *FrameCtx, v ssa.Value, depth int) (string, bool) {
 		}
 		b, st := e.canon(fc, v.X, depth+1)
 		f := fieldName(v.X.Type(), v.Field)
-		return "(" + b + ")." + f, st && e.Immutable[typeName(v.X.Type())+"."+f]
+		return "(" + b + ")." + f, st // a field of an SSA struct value cannot change
 	case *ssa.IndexAddr:
 		b, st := e.canon(fc, v.X, depth+1)
 		i, st2 := e.canon(fc, v.Index, depth+1)
@@ -517,6 +517,11 @@ func (e *Engine) canon(fc *FrameCtx, v ssa.Value, depth int) (string, bool) {
 					if w := wholeStore(a0); w != nil {
 						if s, st, ok := e.structValueField(e.ctxOfOr(fc, a0.Parent()), w, fa.Field, depth); ok {
 							return s, st
+						}
+						// a copy of some other struct value (a call's result): its field
+						if _, isCall := stripConv(w).(*ssa.Call); isCall {
+							b, st := e.canon(e.ctxOfOr(fc, a0.Parent()), w, depth+1)
+							return "(" + b + ")." + f, st
 						}
 					}
 				}
@@ -596,6 +601,76 @@ func (e *Engine) canon(fc *FrameCtx, v ssa.Value, depth int) (string, bool) {
 		return "slice(" + s + ")@" + e.valID(fc, v), true
 	}
 	return "v:" + e.valID(fc, v), true
+}
+
+// bindStructResult: rv is a struct value a callee returns, built by a composite literal of
+// its own; for every field whose nil-ness this path knows (absent from the literal, a nil
+// constant, a fresh object, a value tested on the path) the caller learns the same about
+// `result.field`.
+func (e *Engine) bindStructResult(st *State, fc *FrameCtx, rv ssa.Value, key string) {
+	ld, ok := stripConv(rv).(*ssa.UnOp)
+	if !ok || ld.Op != token.MUL {
+		return
+	}
+	lit, ok := ld.X.(*ssa.Alloc)
+	if !ok {
+		return
+	}
+	stt, ok := lit.Type().Underlying().(*types.Pointer).Elem().Underlying().(*types.Struct)
+	if !ok {
+		return
+	}
+	// only literals: field stores and whole loads
+	for _, ref := range *lit.Referrers() {
+		switch x := ref.(type) {
+		case *ssa.FieldAddr, *ssa.DebugRef:
+		case *ssa.UnOp:
+			if x.Op != token.MUL {
+				return
+			}
+		default:
+			return
+		}
+	}
+	for i := 0; i < stt.NumFields(); i++ {
+		switch stt.Field(i).Type().Underlying().(type) {
+		case *types.Pointer, *types.Interface, *types.Signature, *types.Map, *types.Slice, *types.Chan:
+		default:
+			continue
+		}
+		nk := "(" + minStr("nil", "("+key+")."+stt.Field(i).Name()) + "==" + maxStr("nil", "("+key+")."+stt.Field(i).Name()) + ")"
+		if !e.rule.PredOK(nk) {
+			continue
+		}
+		stores := 0
+		var sv ssa.Value
+		for _, ref := range *lit.Referrers() {
+			if fa, ok := ref.(*ssa.FieldAddr); ok && fa.Field == i {
+				for _, r2 := range *fa.Referrers() {
+					if s2, ok := r2.(*ssa.Store); ok && s2.Addr == ssa.Value(fa) {
+						stores++
+						sv = s2.Val
+					}
+				}
+			}
+		}
+		switch {
+		case stores == 0:
+			st.pi[nk] = true // zero value
+		case stores > 1:
+		default:
+			if k, isK := sv.(*ssa.Const); isK && k.Value == nil {
+				st.pi[nk] = true
+			} else if e.neverNil(fc, sv, 0) {
+				st.pi[nk] = false
+			} else {
+				cv := e.CanonS(fc, sv)
+				if val, known := st.pi["("+minStr("nil", cv)+"=="+maxStr("nil", cv)+")"]; known {
+					st.pi[nk] = val
+				}
+			}
+		}
+	}
 }
 
 // structValueField: the canonical value of field number field of the struct value w, when
@@ -1124,6 +1199,9 @@ func (e *Engine) explore(st *State) {
 								st.pi[nk] = val
 							}
 						}
+						// a small result struct built by a literal ("plan", "decision"): the
+						// nil-ness of each pointer/interface/func field is known to the caller
+						e.bindStructResult(st, fc, rv, key)
 					}
 				}
 			}
